@@ -1,11 +1,200 @@
-import Op2Model.Clm
+import Op2Proofs.Clm.Sets
 import Op2Model.Gen.Layout
 import Op2Model.Gen.Constants
 /-!
 # C03 — CLM pack → reopen → extract preserves every track's audio data and format
 -/
 namespace Op2.Props.C03
-open Op2 Op2.Clm
+open Op2 Op2.Clm Op2.Wave
+open Op2.Parser (encU32_length)
+
+/-! ## layout: every archive `create` returns is a well-formed clump file (all inputs, no hypothesis) -/
+
+/-- header, member count, index offsets and lengths agree with the independent description, offsets are the true running
+    sums starting right after the index, and the file ends with the last member's data -/
+theorem C03_layout (files : List (Bytes × Content)) (a : Archive) (h : create files = .ok a) : Spec.WF a.toBytes := by
+  obtain ⟨infos, idx, hc⟩ := (create_ok_iff files a).mp h
+  have sh := hc.shape
+  obtain ⟨_, _, _, _, hidx, _, _⟩ := hc
+  have hstart : headerSize + (namesOf files).length * entrySize
+      = 60 + 16 * ((namesOf files).zip (infos.map (·.dataLen))).length := by
+    rw [sh.items_len, sh.n_eq]; unfold headerSize entrySize; omega
+  rw [hstart] at hidx
+  have hn : ((namesOf files).zip (infos.map (·.dataLen))).length < W32 := by
+    rw [sh.items_len]
+    by_cases he : files = []
+    · subst he; decide
+    · have := sh.fits he
+      unfold headerSize entrySize offsetLimit at this; unfold W32; omega
+  have := wf_of_prepared (fmtOf infos) _ idx (a.datas.flatMap Content.toBytes) sh.fmt_len hidx
+    (by rw [flatMap_toBytes_length, sh.datas_lens, sh.items_lens]) hn
+  rw [sh.bytes]
+  rw [sh.items_len] at this
+  exact this
+
+/-! ## reopening: whatever was packed is listed, streamed and extracted as intake found it (all inputs) -/
+
+/-- every archive `create` returns is accepted by the reader; it lists one member per file, in the sorted order; each
+    member's size is the `data` chunk length, its stream is exactly the `dataLen` bytes of the source at the data
+    position, and its extraction is the canonical header followed by those bytes -/
+theorem C03_reopen (files : List (Bytes × Content)) (a : Archive) (h : create files = .ok a)
+    (hcap : files.length * 16 ≤ allocCap) :
+    ∃ v infos, Clm.open a.toBytes = .ok v ∧ v.count = files.length ∧
+      intakeAll ((sorted files).map (·.2)) = .ok infos ∧ v.fmt = fmtOf infos ∧
+      ∀ (i : Nat) (p : Bytes) (c : Content) (info : Info), (sorted files)[i]? = some (p, c) → infos[i]? = some info →
+        v.name i = .ok ((padName (nameOf p)).takeWhile (· ≠ 0)) ∧
+        v.size i = .ok info.dataLen ∧
+        v.stream a.toBytes i = .ok ((c.toBytes.drop info.dataPos).take info.dataLen) ∧
+        v.extractWav a.toBytes i = .ok (wavHeader (fmtOf infos) info.dataLen ++ (c.toBytes.drop info.dataPos).take info.dataLen) := by
+  obtain ⟨infos, idx, hc⟩ := (create_ok_iff files a).mp h
+  obtain ⟨v, hopen, hfmt, hcount, hmem⟩ := reopen_created hc hcap
+  refine ⟨v, infos, hopen, hcount, hc.1, hfmt, ?_⟩
+  intro i p c info hs hi
+  obtain ⟨_, off, he, hext⟩ := hmem i p c info hs hi
+  refine ⟨?_, ?_, ?_, ?_⟩
+  · simp [View.name, View.entry, he, entryName, Except.map]
+  · simp [View.size, View.entry, he, Except.map]
+  · simp only [View.stream, View.entry, he, bind, Except.bind]; exact hext
+  · simp only [View.extractWav, View.entry, he, bind, Except.bind, hext, pure, Except.pure, hfmt]
+
+/-! ## the round trip on the property's quantifier: sets of RIFF/WAVE files with a common format -/
+
+/-- the sources: `(path, description)`; the files handed to `CreateArchive` are their encodings -/
+def filesOf (srcs : List (Bytes × Desc)) : List (Bytes × Content) := srcs.map (fun s => (s.1, ⟨s.2.enc, 0⟩))
+/-- the sources in archive order (sorted by file name, ignoring case) -/
+def sortedSrcs (srcs : List (Bytes × Desc)) : List (Bytes × Desc) := Str.sortCI (fun s : Bytes × Desc => Path.getFilename s.1) srcs
+
+/-- **C03 round trip.**  For every finite list of sources that are RIFF/WAVE files by the grammar (any other chunks before
+    and between `fmt ` and `data`, anything after the data), share the 16 format bytes, have names (file name without
+    extension) of at most 8 bytes without NUL that are pairwise distinct ignoring case, and whose index and data fit
+    32 bits: creation succeeds; the reader accepts the archive; it lists exactly the sources in sorted order, by name;
+    each size is that file's data-chunk length; each stream is exactly that chunk's bytes; each extraction is a
+    self-consistent WAV carrying the common format and those bytes. -/
+theorem C03_roundtrip (srcs : List (Bytes × Desc)) (fmt16 : Bytes)
+    (hvalid : ∀ s ∈ srcs, s.2.Valid) (hfmt : ∀ s ∈ srcs, s.2.fmt16 = fmt16)
+    (hname : ∀ s ∈ srcs, (nameOf s.1).length ≤ nameMax ∧ ∀ x ∈ nameOf s.1, x ≠ 0)
+    (hdistinct : Str.NoDupCI (fun s : Bytes × Desc => nameOf s.1) srcs)
+    (hfits : headerSize + srcs.length * entrySize + (srcs.map (·.2.data.length)).sum ≤ offsetLimit)
+    (hcap : srcs.length * 16 ≤ allocCap) :
+    ∃ a v, create (filesOf srcs) = .ok a ∧ Clm.open a.toBytes = .ok v ∧ v.count = srcs.length ∧
+      (srcs ≠ [] → v.fmt = fmt16 ++ [0, 0]) ∧
+      ∀ (i : Nat) (p : Bytes) (d : Desc), (sortedSrcs srcs)[i]? = some (p, d) →
+        v.name i = .ok (nameOf p) ∧
+        v.size i = .ok d.data.length ∧
+        v.stream a.toBytes i = .ok d.data ∧
+        ∃ w, v.extractWav a.toBytes i = .ok w ∧ Spec.SelfConsistentWav w fmt16 d.data := by
+  -- the sorted files are the encodings of the sorted sources
+  let g : Bytes × Desc → Bytes × Content := fun s => (s.1, ⟨s.2.enc, 0⟩)
+  have hsorted : sorted (filesOf srcs) = (sortedSrcs srcs).map g := sortCI_map g _ srcs
+  have hperm : (sortedSrcs srcs).Perm srcs := Str.sortCI_perm _ srcs
+  have hmemS : ∀ s ∈ sortedSrcs srcs, s ∈ srcs := fun s hs => hperm.mem_iff.mp hs
+  let info : Bytes × Desc → Info := fun s => ⟨s.2.fmt16 ++ [0, 0], s.2.dataPos, s.2.data.length⟩
+  have hin : ∀ s ∈ sortedSrcs srcs, intake (g s).2 = .ok (info s) ∧
+      (info s).dataPos + (info s).dataLen ≤ (g s).2.len ∧
+      ((g s).2.toBytes.drop s.2.dataPos).take s.2.data.length = s.2.data := by
+    intro s hs
+    exact intake_desc (g s).2 s.2 (by simp [g, Content.toBytes, zeros]) (hvalid s (hmemS s hs))
+  -- creation succeeds
+  have hint : intakeAll ((sorted (filesOf srcs)).map (·.2)) = .ok ((sortedSrcs srcs).map info) := by
+    rw [hsorted, List.map_map]
+    exact intakeAll_of_forall _ (fun s => (g s).2) info (fun s hs => (hin s hs).1)
+  have hnames : namesOf (filesOf srcs) = (sortedSrcs srcs).map (fun s => nameOf s.1) := by
+    show (sorted (filesOf srcs)).map _ = _
+    rw [hsorted, List.map_map]; rfl
+  have hlens : ((sortedSrcs srcs).map info).map (·.dataLen) = (sortedSrcs srcs).map (·.2.data.length) := by
+    rw [List.map_map]; rfl
+  have hflen : (filesOf srcs).length = srcs.length := by simp [filesOf]
+  obtain ⟨ds, hds⟩ := slices_of_forall (sortedSrcs srcs) (fun s => (g s).2) info (fun s hs => (hin s hs).2.1)
+  have hnl : (namesOf (filesOf srcs)).length = srcs.length := by rw [namesOf_length, hflen]
+  have hidx : ∃ idx, prepareIndex (headerSize + (namesOf (filesOf srcs)).length * entrySize)
+      ((namesOf (filesOf srcs)).zip (((sortedSrcs srcs).map info).map (·.dataLen))) = some idx := by
+    cases hp : prepareIndex (headerSize + (namesOf (filesOf srcs)).length * entrySize)
+      ((namesOf (filesOf srcs)).zip (((sortedSrcs srcs).map info).map (·.dataLen))) with
+    | some idx => exact ⟨idx, rfl⟩
+    | none =>
+      exfalso
+      obtain ⟨_, hgt⟩ := (prepareIndex_none_iff _ _).mp hp
+      rw [List.map_snd_zip (by rw [hnl, hlens, List.length_map, hperm.length_eq]; omega), hlens, hnl] at hgt
+      have : ((sortedSrcs srcs).map (·.2.data.length)).sum = (srcs.map (·.2.data.length)).sum :=
+        (hperm.map _).sum_nat
+      omega
+  obtain ⟨idx, hidx⟩ := hidx
+  let a : Archive := ⟨version ++ fmtOf ((sortedSrcs srcs).map info) ++ unknown ++ encU32 (namesOf (filesOf srcs)).length ++ idx, ds⟩
+  have hcreated : Created (filesOf srcs) a ((sortedSrcs srcs).map info) idx := by
+    refine ⟨hint, ?_, ?_, ?_, hidx, ?_, rfl⟩
+    · apply allSameFmt_of_forall _ (fmt16 ++ [0, 0])
+      intro i hi
+      obtain ⟨s, hs, rfl⟩ := List.mem_map.mp hi
+      simp only [info]; rw [hfmt s (hmemS s hs)]
+    · intro n hn
+      rw [hnames] at hn
+      obtain ⟨s, hs, rfl⟩ := List.mem_map.mp hn
+      exact (hname s (hmemS s hs)).1
+    · rw [hnames]
+      cases hd : Str.hasAdjacentDup ((sortedSrcs srcs).map (fun s => nameOf s.1))
+      · rfl
+      · exfalso
+        have := Str.hasAdjacentDup_sound _ hd
+        apply this
+        unfold Str.NoDupCI
+        rw [List.pairwise_map]
+        exact (hdistinct.perm _ hperm.symm)
+    · show slices (((sorted (filesOf srcs)).map (·.2)).zip _) = some ds
+      rw [hsorted, List.map_map]; exact hds
+  have hcreate : create (filesOf srcs) = .ok a := (create_ok_iff _ _).mpr ⟨_, _, hcreated⟩
+  obtain ⟨v, hopen, hvfmt, hcount, hmem⟩ := reopen_created hcreated (by rw [hflen]; exact hcap)
+  refine ⟨a, v, hcreate, hopen, by rw [hcount, hflen], ?_, ?_⟩
+  · intro hne
+    rw [hvfmt]
+    cases hss : sortedSrcs srcs with
+    | nil => exact absurd (by rw [← hperm.length_eq, hss]; rfl : srcs.length = 0) (by
+        intro h0; exact hne (List.eq_nil_of_length_eq_zero h0))
+    | cons s rest =>
+      have hs : s ∈ sortedSrcs srcs := by rw [hss]; simp
+      simp only [fmtOf, List.map_cons, info]
+      rw [hfmt s (hmemS s hs)]
+  · intro i p d hs
+    have hs' : (sorted (filesOf srcs))[i]? = some (p, ⟨d.enc, 0⟩) := by
+      rw [hsorted, List.getElem?_map, hs]; rfl
+    have hi' : ((sortedSrcs srcs).map info)[i]? = some (info (p, d)) := by
+      rw [List.getElem?_map, hs]; rfl
+    have hmemi : (p, d) ∈ sortedSrcs srcs := List.mem_of_getElem? hs
+    obtain ⟨_, off, he, hext⟩ := hmem i p ⟨d.enc, 0⟩ (info (p, d)) hs' hi'
+    have hslice := (hin (p, d) hmemi).2.2
+    simp only [g, info] at hslice hext
+    rw [hslice] at hext
+    have hnm := hname (p, d) (hmemS _ hmemi)
+    have hv := hvalid (p, d) (hmemS _ hmemi)
+    refine ⟨?_, ?_, ?_, ?_⟩
+    · simp only [View.name, View.entry, he, Except.map]
+      rw [entryName_padName _ hnm.2 hnm.1]
+    · simp [View.size, View.entry, he, Except.map, info]
+    · simp only [View.stream, View.entry, he, bind, Except.bind]; exact hext
+    · refine ⟨wavHeader v.fmt d.data.length ++ d.data, ?_, ?_⟩
+      · simp only [View.extractWav, View.entry, he, bind, Except.bind, hext, pure, Except.pure, info]
+      · have hvf : v.fmt = fmt16 ++ [0, 0] := by
+          rw [hvfmt]
+          cases hss : sortedSrcs srcs with
+          | nil => rw [hss] at hmemi; simp at hmemi
+          | cons s rest =>
+            have hs0 : s ∈ sortedSrcs srcs := by rw [hss]; simp
+            simp only [fmtOf, List.map_cons, info]
+            rw [hfmt s (hmemS s hs0)]
+        have h16 : fmt16.length = 16 := by rw [← hfmt (p, d) (hmemS _ hmemi)]; exact hv.1
+        have := wavHeader_selfConsistent v.fmt d.data (by rw [hvf]; simp [h16]) (by
+          -- the data is part of a file shorter than 2^32 - 38: the source itself carries a 44-byte header
+          have hsmall : d.enc.length < W32 := hv.2.2.2
+          have h16' : d.fmt16.length = 16 := hv.1
+          have : d.enc.length ≥ d.data.length + 44 := by
+            rw [Desc.enc_eq, List.length_append, riff12_length]
+            simp only [Desc.body, List.length_append, Chunk.enc, Desc.fmtChunk, Desc.dataChunk, encU32_length, tagFmt, tagData,
+              List.length_cons, List.length_nil, h16']
+            omega
+          omega)
+        rw [hvf] at this ⊢
+        have ht : (fmt16 ++ [0, 0]).take 16 = fmt16 := take_app_len h16
+        rw [ht] at this
+        exact this
 
 /-! ## bridging lemmas: facts regenerated from the current source are the model's -/
 
